@@ -12,16 +12,20 @@
    T06b - after every add the buffered entries are below max_memory: a spill happens no later
      than when the limit is reached.   T06d - adds after iteration has begun are refused.
    T06c - every written chunk has strictly increasing keys.
-   The thread pool has no counterpart in the sequential model (only the order in which chunk
-   readers are collected depends on it; the merger theorem is insensitive to the order of the
-   sources); spill files inside the configured directory is a fact about mkstemp templates.
-   Both are checked by engine so, which compares implementation, model and specification over
+   The thread pool enters the model as the ORDER in which chunk readers are collected: the second
+   part of this file (T06e .. T06j) proves the output theorem for every collection order, the
+   canonical output for commutative merge functions, next / seek histories on the sorter's
+   iterator, mtbl_sorter_write, the chunk-file round trip and the spill paths.
+   Engine so checks all of it on the real code, which compares implementation, model and specification over
    add sequences x memory limits (1 .. everything in memory, incl. the boundary of the spill
    rule) x pools 0..8 x {iterator, mtbl_sorter_write} x {concatenating, failing} merge. *)
 From Coq Require Import NArith List Lia.
 From Coq Require Import Permutation Sorting.Sorted.
+From Coq Require Import ZArith.
 From Mtbl Require Import gen.Consts model.Bytes model.Order model.Heap model.Merger model.Sorter spec.MergeSpec proofs.SorterProofs
-  proofs.MergerProofs proofs.MergerClosed proofs.SorterFull.
+  proofs.MergerProofs proofs.MergerClosed proofs.SorterFull
+  model.Writer model.Reader proofs.OrderProofs proofs.MergerHistory proofs.ReaderProofs proofs.SorterMore proofs.SorterWrite.
+From Mtbl Require proofs.SorterSpill.
 (* source ties: the statements of the C functions the model follows (gen/Ties.v is regenerated from /repo on every run) *)
 From Mtbl Require props.Ties_C06.
 Local Open Scope N_scope.
@@ -67,6 +71,413 @@ Example T06_example :
             | Ok (_, Some it) => mdrain mf 10 it = [([97], [1; 124; 4]); ([98], [2; 124; 3]); ([99], [5])]
             | _ => False
             end
+  | _ => False
+  end.
+Proof. vm_compute. repeat split. Qed.
+
+
+(* ======================================================================================= *)
+(* C06, continued - thread pool (order of collection), histories, mtbl_sorter_write, chunk files, spill paths.
+   Everything is about model/Sorter.v as it stands (proofs/SorterMore.v, SorterWrite.v, SorterSpill.v).
+
+   T06e_any_collection_order - with a pool the chunk readers are added to s->readers by the result handler in
+     any order; chunk contents and spill points are those of the sequential run.  For every permutation cs of
+     the sequential chunk list (after the final flush of mtbl_sorter_iter), a total associative merge function,
+     any qsort: mtbl_sorter_iter succeeds, the key list of the output is exactly all_keys [ops] (the sorted
+     distinct keys added) and every value is the left fold of the merge function over some arrangement of
+     exactly the values added for the key.
+   T06f_sorter_output_canonical - merge function additionally commutative: the output is IDENTICAL for every
+     memory limit and every collection order,  canonical f ops =
+     map (fun k => (k, fold of f over the values added for k, in input order)) (all_keys [ops]).
+     NOT true without commutativity: T06_order_matters_without_commutativity (vm_compute) shows two collection
+     orders of the same three chunks giving different values under a concatenating merge function.
+   T06g_history / T06g_history_canonical - every history of next / seek calls on the sorter's iterator is the
+     history of a cursor over all_keys [ops] (values as above); for a commutative merge function it is literally
+     the history of the cursor over canonical f ops.  Any collection order.
+   T06h_sorter_write - mtbl_sorter_write on a fresh writer (any options, any compress/decompress pair that
+     round-trips, any bytes in front), then mtbl_writer_destroy: every mtbl_writer_add succeeds, the call
+     returns success, and the table read back with the reader model is exactly the iterator's output
+     (domain of C01: sizes fit the integer widths; the writer session does not abort).
+     T06h_refused: a second mtbl_sorter_write and every mtbl_sorter_add after a successful write are refused.
+     FALSE: "mtbl_sorter_iter after mtbl_sorter_write is refused" - neither sorter.c nor the model checks
+     s->iterating in mtbl_sorter_iter; T06_iter_after_write_not_refused is the vm_compute witness (the second
+     iterator delivers the full output again).
+   T06i_chunk_roundtrip / T06i_chunk_reader_is_cursor - a chunk written with the table writer (snappy, default
+     options, empty file) and opened with the reader: read_all returns the chunk, and every next / seek history
+     on the reader's iterator equals the history of the ideal cursor  mksc c 0 true BAll false  which
+     model/Sorter.v hands to the merger: the model's shortcut is C01 + C03.
+   T06j_spill_path - every path mkstemp creates from the sorter's template is tmp_dname ++ "/" ++ name with
+     name non-empty and free of '/': dirname path = tmp_dname. *)
+(* ---- T1 --------------------------------------------------------------------------------------------------- *)
+Theorem T06e_any_collection_order :
+  forall (f : bytes -> bytes -> bytes -> bytes) (sort : list entry -> list entry),
+  (forall k a b c, f k (f k a b) c = f k a (f k b c)) ->
+  (forall l, Permutation (sort l) l) -> (forall l, keys_le (sort l)) ->
+  forall max_memory ops,
+  exists s, adds f sort (sorter_init max_memory) ops = Ok s /\
+  exists s1, final_flush (Some (mf f)) sort s = Ok (s1, true) /\
+    (* the sequential run is the identity permutation *)
+    sorter_iter (Some (mf f)) sort s = sorter_iter (Some (mf f)) sort (with_chunks s1 (so_chunks s1)) /\
+    forall cs, Permutation cs (so_chunks s1) ->
+    exists s' it, sorter_iter (Some (mf f)) sort (with_chunks s1 cs) = Ok (s', Some it) /\ so_iterating s' = true /\
+      forall n, (length ops <= n)%nat ->
+      let out := mdrain (mf f) (S n) it in
+      StronglySorted (fun a b => bcmp (fst a) (fst b) = Lt) out /\
+      map fst out = all_keys [ops] /\
+      Forall (fun e => exists first rest, Permutation (first :: rest) (vals (fst e) ops) /\
+                                          fold_left (f (fst e)) rest first = snd e) out.
+Proof.
+  intros f sort Ha Hp Hs max_memory ops.
+  destruct (any_order_core f Ha sort Hp Hs max_memory ops) as (s & Hadds & s1 & Hfl & _ & Hseq & Hcs).
+  exists s. split; [exact Hadds|]. exists s1. split; [exact Hfl|]. split; [exact Hseq|]. intros cs Hperm.
+  destruct (Hcs cs Hperm) as (s' & it & Hit & Hi' & _ & _ & _ & _ & Hlen & Hout & _).
+  exists s', it. split; [exact Hit|]. split; [exact Hi'|]. intros n Hn. exact (Hout n ltac:(lia)).
+Qed.
+Print Assumptions T06e_any_collection_order.
+
+Theorem T06f_sorter_output_canonical :
+  forall (f : bytes -> bytes -> bytes -> bytes) (sort : list entry -> list entry),
+  (forall k a b c, f k (f k a b) c = f k a (f k b c)) -> (forall k a b, f k a b = f k b a) ->
+  (forall l, Permutation (sort l) l) -> (forall l, keys_le (sort l)) ->
+  forall max_memory ops,
+  exists s, adds f sort (sorter_init max_memory) ops = Ok s /\
+  exists s1, final_flush (Some (mf f)) sort s = Ok (s1, true) /\
+    forall cs, Permutation cs (so_chunks s1) ->
+    exists s' it, sorter_iter (Some (mf f)) sort (with_chunks s1 cs) = Ok (s', Some it) /\
+      forall n, (length ops <= n)%nat -> mdrain (mf f) (S n) it = canonical f ops.
+Proof.
+  intros f sort Ha Hc Hp Hs max_memory ops.
+  destruct (any_order_core f Ha sort Hp Hs max_memory ops) as (s & Hadds & s1 & Hfl & _ & _ & Hcs).
+  exists s. split; [exact Hadds|]. exists s1. split; [exact Hfl|]. intros cs Hperm.
+  destruct (Hcs cs Hperm) as (s' & it & Hit & _ & _ & _ & _ & _ & Hlen & Hout & _).
+  exists s', it. split; [exact Hit|]. intros n Hn. apply (out_ok_canonical f Ha Hc), Hout. lia.
+Qed.
+Print Assumptions T06f_sorter_output_canonical.
+
+(* the canonical output spelled out *)
+Lemma canonical_unfold f ops :
+  canonical f ops = map (fun k => (k, match vals k ops with [] => [] | v :: vs => fold_left (f k) vs v end)) (all_keys [ops]).
+Proof. reflexivity. Qed.
+
+(* the sequential sorter of T06a is the special case cs = so_chunks s1 *)
+Corollary T06f_sequential :
+  forall (f : bytes -> bytes -> bytes -> bytes) (sort : list entry -> list entry),
+  (forall k a b c, f k (f k a b) c = f k a (f k b c)) -> (forall k a b, f k a b = f k b a) ->
+  (forall l, Permutation (sort l) l) -> (forall l, keys_le (sort l)) ->
+  forall max_memory ops,
+  exists s, adds f sort (sorter_init max_memory) ops = Ok s /\
+  exists s' it, sorter_iter (Some (mf f)) sort s = Ok (s', Some it) /\
+    mdrain (mf f) (S (length ops)) it = canonical f ops.
+Proof.
+  intros f sort Ha Hc Hp Hs max_memory ops.
+  destruct (any_order_core f Ha sort Hp Hs max_memory ops) as (s & Hadds & s1 & Hfl & _ & Hseq & Hcs).
+  exists s. split; [exact Hadds|].
+  destruct (Hcs (so_chunks s1) (Permutation_refl _)) as (s' & it & Hit & _ & _ & _ & _ & _ & Hlen & Hout & _).
+  exists s', it. split; [rewrite Hseq; exact Hit|]. apply (out_ok_canonical f Ha Hc), Hout, Hlen.
+Qed.
+Print Assumptions T06f_sequential.
+
+(* ---- T2 --------------------------------------------------------------------------------------------------- *)
+Theorem T06g_history :
+  forall (f : bytes -> bytes -> bytes -> bytes) (sort : list entry -> list entry),
+  (forall k a b c, f k (f k a b) c = f k a (f k b c)) ->
+  (forall l, Permutation (sort l) l) -> (forall l, keys_le (sort l)) ->
+  forall max_memory ops,
+  exists s, adds f sort (sorter_init max_memory) ops = Ok s /\
+  exists s1, final_flush (Some (mf f)) sort s = Ok (s1, true) /\
+    forall cs, Permutation cs (so_chunks s1) ->
+    exists s' it, sorter_iter (Some (mf f)) sort (with_chunks s1 cs) = Ok (s', Some it) /\
+      forall hist,
+        map (option_map fst) (mrun (Some (mf f)) it hist) = krun (all_keys [ops]) (Some 0%nat) hist /\
+        forall k v, In (Some (k, v)) (mrun (Some (mf f)) it hist) ->
+          exists first rest, Permutation (first :: rest) (vals k ops) /\ fold_left (f k) rest first = v.
+Proof.
+  intros f sort Ha Hp Hs max_memory ops.
+  destruct (any_order_core f Ha sort Hp Hs max_memory ops) as (s & Hadds & s1 & Hfl & _ & _ & Hcs).
+  exists s. split; [exact Hadds|]. exists s1. split; [exact Hfl|]. intros cs Hperm.
+  destruct (Hcs cs Hperm) as (s' & it & Hit & _ & _ & _ & _ & _ & _ & _ & Hh).
+  exists s', it. split; [exact Hit|]. intros hist. exact (Hh hist).
+Qed.
+Print Assumptions T06g_history.
+
+Theorem T06g_history_canonical :
+  forall (f : bytes -> bytes -> bytes -> bytes) (sort : list entry -> list entry),
+  (forall k a b c, f k (f k a b) c = f k a (f k b c)) -> (forall k a b, f k a b = f k b a) ->
+  (forall l, Permutation (sort l) l) -> (forall l, keys_le (sort l)) ->
+  forall max_memory ops,
+  exists s, adds f sort (sorter_init max_memory) ops = Ok s /\
+  exists s1, final_flush (Some (mf f)) sort s = Ok (s1, true) /\
+    forall cs, Permutation cs (so_chunks s1) ->
+    exists s' it, sorter_iter (Some (mf f)) sort (with_chunks s1 cs) = Ok (s', Some it) /\
+      forall hist, mrun (Some (mf f)) it hist = srun (canonical f ops) (Some 0%nat) hist.
+Proof.
+  intros f sort Ha Hc Hp Hs max_memory ops.
+  destruct (any_order_core f Ha sort Hp Hs max_memory ops) as (s & Hadds & s1 & Hfl & _ & _ & Hcs).
+  exists s. split; [exact Hadds|]. exists s1. split; [exact Hfl|]. intros cs Hperm.
+  destruct (Hcs cs Hperm) as (s' & it & Hit & _ & _ & _ & _ & _ & _ & _ & Hh).
+  exists s', it. split; [exact Hit|]. intros hist. exact (hist_ok_canonical f Ha Hc ops it hist (Hh hist)).
+Qed.
+Print Assumptions T06g_history_canonical.
+
+(* ---- T3 --------------------------------------------------------------------------------------------------- *)
+Section C06Write.
+Variable compress_default : N -> bytes -> res bytes.
+Variable compress_level : N -> Z -> bytes -> res bytes.
+Variable decompress : N -> bytes -> res bytes.
+Hypothesis decompress_compress_default : forall a raw c, compress_default a raw = Ok c -> decompress a c = Ok raw.
+Hypothesis decompress_compress_level : forall a l raw c, compress_level a l raw = Ok c -> decompress a c = Ok raw.
+
+Theorem T06h_sorter_write :
+  forall (f : bytes -> bytes -> bytes -> bytes) (sort : list entry -> list entry),
+  (forall k a b c, f k (f k a b) c = f k a (f k b c)) ->
+  (forall l, Permutation (sort l) l) -> (forall l, keys_le (sort l)) ->
+  forall max_memory ops,
+  exists s, adds f sort (sorter_init max_memory) ops = Ok s /\
+  exists s1, final_flush (Some (mf f)) sort s = Ok (s1, true) /\
+    forall cs, Permutation cs (so_chunks s1) ->
+    exists s' it, sorter_iter (Some (mf f)) sort (with_chunks s1 cs) = Ok (s', Some it) /\
+      let out := mdrain (mf f) (S (length ops)) it in
+      forall o prefix w' rs, 1 <= wo_interval o ->
+        (* the writer session over the iterator's output does not abort, and sizes fit (as in C01) *)
+        writer_session compress_default compress_level o (len prefix) out = Ok (w', rs) ->
+        table_fits o prefix out w' ->
+        (* mtbl_sorter_write on the fresh writer returns success; destroying the writer gives w' *)
+        (exists w1, sorter_write (Some (mf f)) sort compress_default compress_level (with_chunks s1 cs) (writer_init o (len prefix))
+                      = Ok (s', w1, true) /\
+                    writer_finish compress_default compress_level w1 = Ok w') /\
+        so_iterating s' = true /\
+        Forall (fun b => b = true) rs /\
+        read_all decompress (S (length out)) (prefix ++ writer_bytes w') = Ok out.
+Proof.
+  intros f sort Ha Hp Hs max_memory ops.
+  destruct (sorter_write_core f Ha sort Hp Hs compress_default compress_level decompress
+              decompress_compress_default decompress_compress_level max_memory ops) as (s & Hadds & s1 & Hfl & _ & Hcs).
+  exists s. split; [exact Hadds|]. exists s1. split; [exact Hfl|]. intros cs Hperm.
+  destruct (Hcs cs Hperm) as (s' & it & Hit & _ & Hw). exists s', it. split; [exact Hit|]. exact Hw.
+Qed.
+
+(* commutative merge function: the file holds the canonical output *)
+Theorem T06h_sorter_write_canonical :
+  forall (f : bytes -> bytes -> bytes -> bytes) (sort : list entry -> list entry),
+  (forall k a b c, f k (f k a b) c = f k a (f k b c)) -> (forall k a b, f k a b = f k b a) ->
+  (forall l, Permutation (sort l) l) -> (forall l, keys_le (sort l)) ->
+  forall max_memory ops,
+  exists s, adds f sort (sorter_init max_memory) ops = Ok s /\
+  exists s1, final_flush (Some (mf f)) sort s = Ok (s1, true) /\
+    forall cs, Permutation cs (so_chunks s1) ->
+    forall o prefix w' rs, 1 <= wo_interval o ->
+      writer_session compress_default compress_level o (len prefix) (canonical f ops) = Ok (w', rs) ->
+      table_fits o prefix (canonical f ops) w' ->
+      exists s' w1,
+        sorter_write (Some (mf f)) sort compress_default compress_level (with_chunks s1 cs) (writer_init o (len prefix)) = Ok (s', w1, true) /\
+        writer_finish compress_default compress_level w1 = Ok w' /\
+        so_iterating s' = true /\
+        read_all decompress (S (length (canonical f ops))) (prefix ++ writer_bytes w') = Ok (canonical f ops).
+Proof.
+  intros f sort Ha Hc Hp Hs max_memory ops.
+  destruct (sorter_write_core f Ha sort Hp Hs compress_default compress_level decompress
+              decompress_compress_default decompress_compress_level max_memory ops) as (s & Hadds & s1 & Hfl & _ & Hcs).
+  exists s. split; [exact Hadds|]. exists s1. split; [exact Hfl|]. intros cs Hperm o prefix w' rs Hint Hsess Hfits.
+  destruct (Hcs cs Hperm) as (s' & it & Hit & Hout & Hw). cbn zeta in Hout, Hw.
+  rewrite (out_ok_canonical f Ha Hc ops _ Hout) in Hw.
+  destruct (Hw o prefix w' rs Hint Hsess Hfits) as ((w1 & Hsw & Hfin) & Hi' & _ & Hread).
+  exists s', w1. repeat split; assumption.
+Qed.
+End C06Write.
+Print Assumptions T06h_sorter_write.
+Print Assumptions T06h_sorter_write_canonical.
+
+(* refusals: for every merge function, qsort and writer *)
+Theorem T06h_refused : forall mergef sort cd cl,
+  (forall s w, so_iterating s = true -> sorter_write mergef sort cd cl s w = Ok (s, w, false)) /\
+  (forall s w s' w', sorter_write mergef sort cd cl s w = Ok (s', w', true) ->
+     so_iterating s' = true /\
+     (forall w2, sorter_write mergef sort cd cl s' w2 = Ok (s', w2, false)) /\
+     (forall k v, sorter_add mergef sort s' k v = Ok (s', false))) /\
+  (forall s s' it w, sorter_iter mergef sort s = Ok (s', Some it) -> sorter_write mergef sort cd cl s' w = Ok (s', w, false)).
+Proof.
+  intros mergef sort cd cl. split; [|split].
+  - apply sorter_write_refused.
+  - intros s w s' w' H. split; [eapply sorter_write_sets_flag; exact H|]. split.
+    + intros w2. eapply sorter_write_twice; exact H.
+    + intros k v. eapply sorter_add_after_write; exact H.
+  - intros s s' it w H. apply sorter_write_refused. eapply sorter_iter_sets_flag; exact H.
+Qed.
+Print Assumptions T06h_refused.
+
+(* ---- T4 --------------------------------------------------------------------------------------------------- *)
+Section C06Chunk.
+Variable compress_default : N -> bytes -> res bytes.
+Variable compress_level : N -> Z -> bytes -> res bytes.
+Variable decompress : N -> bytes -> res bytes.
+Hypothesis decompress_compress_default : forall a raw c, compress_default a raw = Ok c -> decompress a c = Ok raw.
+Hypothesis decompress_compress_level : forall a l raw c, compress_level a l raw = Ok c -> decompress a c = Ok raw.
+
+Theorem T06i_chunk_roundtrip : forall mergef (sort : list entry -> list entry),
+  (forall l, keys_le (sort l)) ->
+  forall batch c w' rs,
+  write_chunk mergef sort batch = Ok (Some c) ->
+  persist_chunk compress_default compress_level c = Ok (w', rs) -> table_fits chunk_wopts [] c w' ->
+  Forall (fun b => b = true) rs /\ read_all decompress (S (length c)) (writer_bytes w') = Ok c.
+Proof.
+  intros mergef sort Hs batch c w' rs.
+  exact (chunk_roundtrip sort Hs compress_default compress_level decompress decompress_compress_default decompress_compress_level
+           mergef batch c w' rs).
+Qed.
+
+Theorem T06i_chunk_reader_is_cursor : forall mergef (sort : list entry -> list entry),
+  (forall l, Permutation (sort l) l) -> (forall l, keys_le (sort l)) ->
+  forall batch c w' rs,
+  batch <> [] -> write_chunk mergef sort batch = Ok (Some c) ->
+  persist_chunk compress_default compress_level c = Ok (w', rs) -> table_fits chunk_wopts [] c w' ->
+  exists r it, fst (reader_open (writer_bytes w') false) = Ok (Some r) /\
+    reader_iter decompress r = Ok (Some it) /\
+    forall ops, run_model decompress r it ops = Ok (sc_run (mksc c 0 true BAll false) ops).
+Proof.
+  intros mergef sort Hp Hs batch c w' rs.
+  exact (chunk_reader_is_cursor sort Hp Hs compress_default compress_level decompress decompress_compress_default decompress_compress_level
+           mergef batch c w' rs).
+Qed.
+End C06Chunk.
+Print Assumptions T06i_chunk_roundtrip.
+Print Assumptions T06i_chunk_reader_is_cursor.
+
+(* ---- T5 --------------------------------------------------------------------------------------------------- *)
+Import SorterSpill.
+Theorem T06j_spill_path : forall tmp_dname pid r path,
+  ~ In nul tmp_dname ->
+  mkstemp (spill_template tmp_dname pid) r = Some path ->
+  exists name, path = (tmp_dname ++ slash :: name)%list /\ name <> nil /\ ~ In slash name /\
+               (length (tmp_dname ++ [slash]) < length path)%nat /\
+               firstn (length (tmp_dname ++ [slash])) path = (tmp_dname ++ [slash])%list /\
+               dirname path = tmp_dname.
+Proof. exact spill_path_inside_tmp_dir. Qed.
+Print Assumptions T06j_spill_path.
+
+(* ---- a concrete qsort and concrete merge functions: the hypotheses are satisfiable --------------------------- *)
+Fixpoint kinsert (e : entry) (l : list entry) : list entry :=
+  match l with
+  | [] => [e]
+  | x :: tl => match bcmp (fst e) (fst x) with Gt => x :: kinsert e tl | _ => e :: l end
+  end.
+Definition isort (l : list entry) : list entry := fold_right kinsert [] l.
+
+Lemma kinsert_perm e : forall l, Permutation (kinsert e l) (e :: l).
+Proof.
+  induction l as [|x l IH]; [apply Permutation_refl|]. cbn [kinsert]. destruct (bcmp (fst e) (fst x)); try apply Permutation_refl.
+  eapply Permutation_trans; [apply perm_skip, IH|apply perm_swap].
+Qed.
+Lemma isort_perm : forall l, Permutation (isort l) l.
+Proof.
+  induction l as [|e l IH]; [constructor|]. cbn [isort fold_right]. fold (isort l).
+  eapply Permutation_trans; [apply kinsert_perm|apply perm_skip, IH].
+Qed.
+Lemma keys_le_cons x l : keys_le l -> (forall b, hd_error l = Some b -> bcmp (fst x) (fst b) <> Gt) -> keys_le (x :: l).
+Proof. intros Hl Hh. destruct l as [|b l]; [exact I|]. split; [apply Hh; reflexivity|exact Hl]. Qed.
+Lemma kinsert_hd e : forall l b, hd_error (kinsert e l) = Some b -> b = e \/ hd_error l = Some b.
+Proof.
+  intros [|x l] b; cbn [kinsert]; [intros H; inversion H; left; reflexivity|].
+  destruct (bcmp (fst e) (fst x)); cbn [hd_error]; intros H; inversion H; auto.
+Qed.
+Lemma kinsert_sorted e : forall l, keys_le l -> keys_le (kinsert e l).
+Proof.
+  induction l as [|x l IH]; intros Hl; [exact I|]. cbn [kinsert].
+  assert (Hl' : keys_le l) by (destruct l as [|y l]; [exact I|exact (proj2 Hl)]).
+  destruct (bcmp (fst e) (fst x)) eqn:E.
+  - split; [rewrite E; discriminate|exact Hl].
+  - split; [rewrite E; discriminate|exact Hl].
+  - apply keys_le_cons; [apply IH, Hl'|]. intros b Hb. destruct (kinsert_hd e l b Hb) as [->|Hb'].
+    + apply bcmp_lt_gt in E. rewrite E. discriminate.
+    + destruct l as [|y l]; [discriminate|]. inversion Hb'; subst y. exact (proj1 Hl).
+Qed.
+Lemma isort_sorted : forall l, keys_le (isort l).
+Proof. induction l as [|e l IH]; [exact I|]. cbn [isort fold_right]. fold (isort l). apply kinsert_sorted, IH. Qed.
+
+(* a counting merge function (sum of the first bytes, modulo 256): associative and commutative *)
+Definition fsum (_ a b : bytes) : bytes := [(hd 0 a + hd 0 b) mod 256].
+Lemma fsum_assoc k a b c : fsum k (fsum k a b) c = fsum k a (fsum k b c).
+Proof.
+  unfold fsum. cbn [hd]. f_equal. rewrite N.add_mod_idemp_l, N.add_mod_idemp_r by discriminate. f_equal. lia.
+Qed.
+Lemma fsum_comm k a b : fsum k a b = fsum k b a.
+Proof. unfold fsum. rewrite N.add_comm. reflexivity. Qed.
+(* a concatenating merge function: associative, not commutative *)
+Definition fcat (_ a b : bytes) : bytes := a ++ [124] ++ b.
+Lemma fcat_assoc k a b c : fcat k (fcat k a b) c = fcat k a (fcat k b c).
+Proof. unfold fcat. rewrite <- !app_assoc. reflexivity. Qed.
+
+(* the closed instance: insertion sort, counting merge, every memory limit, every collection order *)
+Corollary T06f_instance : forall max_memory ops,
+  exists s, adds fsum isort (sorter_init max_memory) ops = Ok s /\
+  exists s1, final_flush (Some (mf fsum)) isort s = Ok (s1, true) /\
+    forall cs, Permutation cs (so_chunks s1) ->
+    exists s' it, sorter_iter (Some (mf fsum)) isort (with_chunks s1 cs) = Ok (s', Some it) /\
+      forall n, (length ops <= n)%nat -> mdrain (mf fsum) (S n) it = canonical fsum ops.
+Proof. exact (T06f_sorter_output_canonical fsum isort fsum_assoc fsum_comm isort_perm isort_sorted). Qed.
+Print Assumptions T06f_instance.
+
+(* ---- examples (vm_compute) -------------------------------------------------------------------------------- *)
+Definition ex_ops : list entry := [([98], [1]); ([97], [2]); ([97], [3]); ([99], [4]); ([98], [5]); ([97], [6])].
+(* 18 bytes per entry, limit 36: a spill every two entries, three chunks *)
+Definition ex_state (f : bytes -> bytes -> bytes -> bytes) : sorter :=
+  match adds f isort (sorter_init 36) ex_ops with
+  | Ok s => match final_flush (Some (mf f)) isort s with Ok (s1, _) => s1 | _ => s end
+  | _ => sorter_init 0
+  end.
+Definition ex_out (f : bytes -> bytes -> bytes -> bytes) (st : sorter) : list entry :=
+  match sorter_iter (Some (mf f)) isort st with Ok (_, Some it) => mdrain (mf f) 7 it | _ => [] end.
+
+(* three chunks collected in two different orders, commutative merge: the same, canonical output *)
+Example T06_pool_example :
+  so_chunks (ex_state fsum) = [Some [([97], [2]); ([98], [1])]; Some [([97], [3]); ([99], [4])]; Some [([97], [6]); ([98], [5])]] /\
+  let order2 := [Some [([97], [6]); ([98], [5])]; Some [([97], [2]); ([98], [1])]; Some [([97], [3]); ([99], [4])]] in
+  ex_out fsum (ex_state fsum) = [([97], [11]); ([98], [6]); ([99], [4])] /\
+  ex_out fsum (with_chunks (ex_state fsum) order2) = [([97], [11]); ([98], [6]); ([99], [4])] /\
+  ex_out fsum (with_chunks (ex_state fsum) (rev (so_chunks (ex_state fsum)))) = [([97], [11]); ([98], [6]); ([99], [4])] /\
+  canonical fsum ex_ops = [([97], [11]); ([98], [6]); ([99], [4])].
+Proof. vm_compute. repeat split. Qed.
+
+(* COUNTEREXAMPLE to "the output is the same with and without a pool" for a merge function that is associative
+   but not commutative: the same three chunks, two collection orders, different values for keys 97 and 98
+   (both are folds over arrangements of exactly the values added, as T06e says; neither is the input order
+   2|3|6 of key 97) *)
+Example T06_order_matters_without_commutativity :
+  ex_out fcat (ex_state fcat) = [([97], [2; 124; 6; 124; 3]); ([98], [1; 124; 5]); ([99], [4])] /\
+  ex_out fcat (with_chunks (ex_state fcat) (rev (so_chunks (ex_state fcat)))) = [([97], [6; 124; 2; 124; 3]); ([98], [5; 124; 1]); ([99], [4])] /\
+  canonical fcat ex_ops = [([97], [2; 124; 3; 124; 6]); ([98], [1; 124; 5]); ([99], [4])].
+Proof. vm_compute. repeat split. Qed.
+
+(* a history with seeks on the iterator, chunks in reversed order *)
+Example T06_history_example :
+  match sorter_iter (Some (mf fsum)) isort (with_chunks (ex_state fsum) (rev (so_chunks (ex_state fsum)))) with
+  | Ok (_, Some it) =>
+    mrun (Some (mf fsum)) it [MNext; MSeek [98]; MNext; MNext; MNext; MNext; MSeek [97; 0]; MNext; MSeek []; MNext]
+    = [Some ([97], [11]); None; Some ([98], [6]); Some ([99], [4]); None; None; None; Some ([98], [6]); None; Some ([97], [11])]
+  | _ => False
+  end.
+Proof. vm_compute. reflexivity. Qed.
+
+(* mtbl_sorter_write (no compression, 3 foreign bytes in front), the table read back, the second write refused;
+   COUNTEREXAMPLE to "mtbl_sorter_iter after mtbl_sorter_write is refused": it returns a fresh iterator that
+   delivers the whole output again (mtbl_sorter_iter does not test s->iterating, in sorter.c as in the model) *)
+Example T06_iter_after_write_not_refused :
+  let cd := fun (_ : N) (_ : bytes) => @Fail bytes in
+  let cl := fun (_ : N) (_ : Z) (_ : bytes) => @Fail bytes in
+  let o := mkwopts 0 (-10000)%Z 1024 16 in
+  let prefix := [7; 7; 7] in
+  match sorter_write (Some (mf fcat)) isort cd cl (ex_state fcat) (writer_init o (len prefix)) with
+  | Ok (s', w1, r) =>
+    r = true /\ so_iterating s' = true /\
+    match writer_finish cd cl w1 with
+    | Ok w' => read_all (fun _ _ => Fail) 7 (prefix ++ writer_bytes w') = Ok (ex_out fcat (ex_state fcat))
+    | _ => False
+    end /\
+    sorter_write (Some (mf fcat)) isort cd cl s' w1 = Ok (s', w1, false) /\
+    sorter_add (Some (mf fcat)) isort s' [100] [1] = Ok (s', false) /\
+    match sorter_iter (Some (mf fcat)) isort s' with
+    | Ok (_, Some it) => mdrain (mf fcat) 7 it = [([97], [2; 124; 6; 124; 3]); ([98], [1; 124; 5]); ([99], [4])]
+    | _ => False
+    end
   | _ => False
   end.
 Proof. vm_compute. repeat split. Qed.
